@@ -326,13 +326,13 @@ func genCase(route string) *rapid.Generator[Case] {
 }
 
 func TestRandomPairsAST(t *testing.T) {
-	vt.Check(t, vt.N(400000, 4000000), func(rt *rapid.T) {
+	vt.Check(t, vt.N(400000, 20000000), func(rt *rapid.T) {
 		run(rt, genCase("ast").Draw(rt, "case"), true)
 	})
 }
 
 func TestRandomPairsSource(t *testing.T) {
-	vt.Check(t, vt.N(40000, 600000), func(rt *rapid.T) {
+	vt.Check(t, vt.N(40000, 2000000), func(rt *rapid.T) {
 		run(rt, genCase("source").Draw(rt, "case"), true)
 	})
 }
